@@ -91,7 +91,7 @@ HARNESSES += [
       48, _b(48, LMAX=2)),
  _rec('wrapper', ['interrogateFunctionWrapper.cxx'], 'InterrogateFunctionWrapper::output/input incl. the parameter vector',
       '(alt names, parameters) in {(0,0), (1,1), (0,2)}',
-      48, _b(48, LMAX=2)),
+      64, _b(64, LMAX=2)),
  _rec('type', ['interrogateType.cxx'], 'InterrogateType::output/input incl. all eight vectors, derivations and enum values',
       'alt names and each of the eight vectors hold 0 or 1 element in the patterns none / all / alternating (two phases); '
       '_array_size symbolic iff the array flag is set (it is serialised only then), constructor default otherwise',
